@@ -115,12 +115,15 @@ func writeOK(bg *Writer, c *compressor) bool {
 	verifAtC("e.write", c, int64(c.buf.Len()))
 	_, err := io.Copy(bg.w, &c.buf)
 	verifAtC("e.copied", c, 0)
-	bg.qwg.Done()
-	verifAtC("e.done", c, 0)
 	if err != nil {
+		// Set the error before the block is counted done so
+		// that a Wait released by it reports the failure.
 		bg.setErr(err)
+		bg.qwg.Done()
 		return false
 	}
+	bg.qwg.Done()
+	verifAtC("e.done", c, 0)
 	c.next = 0
 
 	return true
